@@ -183,7 +183,9 @@ def run_case(spec, ctx):
               np.column_stack([np.zeros(5), rng.random(5)]),
               np.vstack([np.column_stack([rng.random(3), np.zeros(3)]), rng.random((3, 2))]),
               np.vstack([np.column_stack([np.zeros(2), rng.random(2)]), rng.random((2, 2))]),
-              np.vstack([np.ones((1, 2)), rng.random((2, 2)), np.zeros((1, 2))])]
+              np.vstack([np.ones((1, 2)), rng.random((2, 2)), np.zeros((1, 2))]),
+              # the smallest batches: n = 1, 2, 3 (an (n, 2) array with n = 2 is square)
+              rng.random((1, 2)), rng.random((2, 2)), rng.random((3, 2))]
     for batch in compos:
         whole = _cdf(ctx, model, batch, where)
         if whole is None:
